@@ -282,6 +282,11 @@ func checkC16(c *Ctx, w *World) {
 			}
 		}
 		broken = append(broken, c15.fatal...)
+		for _, o := range c15.Obs {
+			if strings.HasPrefix(o.Rule, "engine.") && o.Status != "ok" {
+				broken = append(broken, "C15 premises: "+o.Rule+" @ "+o.Construct)
+			}
+		}
 		// pools[me.Current()]: Current() must name an endpoint of the MultiEndpoint's latest accepted list
 		// (which all have pools): the membership rules of C13 are premises too
 		c13 := newCtx("C13", c.Tier, c.Repo, c.Verif)
@@ -304,6 +309,12 @@ func checkC16(c *Ctx, w *World) {
 			}
 		}
 		broken = append(broken, c13.fatal...)
+		for _, o := range c13.Obs {
+			// a premise run that lost an anchor proves nothing
+			if strings.HasPrefix(o.Rule, "engine.") && o.Status != "ok" {
+				broken = append(broken, "C13 premises: "+o.Rule+" @ "+o.Construct)
+			}
+		}
 		// defaultName is assigned only when the options contain it
 		hasDefault := func(v ssa.Value) bool {
 			e, ok := stripConv(v).(*ssa.Extract)
